@@ -649,6 +649,9 @@ impl<'a> Db<'a> {
                     if key.iter().any(|v| v.is_null()) {
                         self.ev("null_group_key");
                     }
+                    if !key.is_empty() && key.iter().all(|v| v.is_null()) {
+                        self.ev("all_null_group_key");
+                    }
                     match groups.iter_mut().find(|(k, _)| rows_not_distinct(k, &key)) {
                         Some((_, rows)) => rows.push(row.clone()),
                         None => groups.push((key, vec![row.clone()])),
